@@ -2192,6 +2192,14 @@ pub fn gen_c20(seed: u64, i: u64, _thorough: bool) -> Value {
         if let Some(m) = modified_val(&mut rng, at0) {
             first.push(Intent::Key { t, key: "modified".into(), val: Some(m), ts: 0 });
         }
+        // other times a task carries (only `modified` decides expiry)
+        for key in ["end", "entry", "wait", "due"] {
+            if rng.chance(1, 3) {
+                let now = crate::interpose::EPOCH0 + at0;
+                let v = if rng.chance(2, 3) { now - rng.range(181, 4000) * DAY } else { now - rng.range(0, 179) * DAY };
+                first.push(Intent::Key { t, key: key.into(), val: Some(v.to_string()), ts: 0 });
+            }
+        }
     }
     let mut scripts = Vec::new();
     for n in 0..nodes {
@@ -2411,6 +2419,33 @@ pub fn run_c06(scv: &Value, want_log: bool) -> RunResult {
     }
     if commit_points.len() >= 2 {
         w.borrow_mut().probe("c06.multi_commit_action");
+    }
+    // "either the complete before-state or the complete after-state of that action": a commit, a
+    // rebuild and an expiry are one transaction; a sync and an undo are one transaction followed by
+    // the working-set rebuild in a second (docs/src/taskdb.md), so between the two the store holds
+    // the after-state's tasks, base version and operations with the before-state's working set.
+    // Any other state a transaction boundary of the action exposes is a partial result.
+    {
+        let two_step = matches!(action, Action::Sync { .. } | Action::Undo);
+        let (first, last) = (states[0].clone(), states[states.len() - 1].clone());
+        for (j, s) in states.iter().enumerate() {
+            let hybrid = two_step && s.tasks == last.tasks && s.base_version == last.base_version && s.unsynced == last.unsynced && s.working_set == first.working_set;
+            if !(same_store(s, &first) || same_store(s, &last) || hybrid) {
+                w.borrow_mut().violation(
+                    "crash.atomic",
+                    "intermediate-commit",
+                    format!(
+                        "node {v}: after {j} of the action's {} storage commits a fresh handle sees neither the before-state nor the after-state of the action{}\n  before: {}\n  found:  {}\n  after:  {}",
+                        commit_points.len(),
+                        if two_step { " (nor the after-state awaiting its working-set rebuild)" } else { "" },
+                        describe_store(&first),
+                        describe_store(s),
+                        describe_store(&last)
+                    ),
+                );
+                return finish(&w, evals, &[]);
+            }
+        }
     }
     w.borrow_mut().probe("sweep.actions");
     'sweep: for (ord, label) in &points {
@@ -2702,6 +2737,18 @@ pub fn gen_c06(seed: u64, i: u64, thorough: bool) -> Value {
         7..=8 => Action::Sync { avoid: rng.chance(1, 2) },
         _ => Action::Expire { at: 400 * DAY },
     };
+    let fresh_join = nodes >= 2 && rng.chance(1, 6);
+    let under = if fresh_join { Action::Sync { avoid: rng.chance(1, 2) } } else { under };
+    if fresh_join {
+        // a replica that has never done anything joins a server that holds a snapshot
+        scripts[v].clear();
+        let o = (v + 1) % nodes;
+        // (seeded urgency: the snapshot is usually not of the latest version)
+        for _ in 0..2 + rng.usize_below(3) {
+            scripts[o].push(Action::Commit { ops: gen_status_intents(&mut rng, &mut g, 4) });
+            scripts[o].push(Action::Sync { avoid: false });
+        }
+    }
     if matches!(under, Action::Expire { .. }) {
         // give expiration something to purge
         let t = rng.below(g.tasks as u64) as u8;
@@ -2722,7 +2769,7 @@ pub fn gen_c06(seed: u64, i: u64, thorough: bool) -> Value {
         atomic_sync: true,
         bias: 0,
         faults: vec![],
-        urgency_mode: *rng.pick(&[0u8, 1]),
+        urgency_mode: if fresh_join { 1 } else { *rng.pick(&[0u8, 1]) },
         srv_seed: rng.next_u64(),
         rounds: vec![],
         under_test: Some((v, under)),
